@@ -112,7 +112,8 @@ PURE_STR = {"lower", "upper", "replace", "strip", "lstrip", "rstrip", "encode", 
 
 class Interp:
     def __init__(self, func_node, clsname=None, oracle=None, max_paths=6000, selfname=None, loop_unroll=2,
-                 depth=0, max_depth=3, exc_bases=None):
+                 depth=0, max_depth=3, exc_bases=None, resolve=None):
+        self.resolve = resolve  # name -> python constant (module-level bindings), or raises KeyError
         self.f = func_node
         self.clsname = clsname
         self.oracle = oracle
@@ -428,6 +429,11 @@ class Interp:
         if isinstance(e, ast.Name):
             if e.id in st.env:
                 return [(st.env[e.id], st)]
+            if self.resolve is not None:
+                try:
+                    return [(Const(self.resolve(e.id)), st)]
+                except KeyError:
+                    pass
             return [(Unknown(e.id), st)]
         if isinstance(e, ast.Attribute):
             key = self.attr_key(e)
@@ -646,7 +652,7 @@ class Interp:
             return [(Unknown("depth"), st)]
         sub = Interp(func.node, func.cls.name if func.cls else None, self.oracle, self.max_paths,
                      loop_unroll=self.loop_unroll, depth=self.depth + 1, max_depth=self.max_depth,
-                     exc_bases=self.exc_bases)
+                     exc_bases=self.exc_bases, resolve=self.resolve)
         params = list(func.params)
         env = {}
         if func.cls is not None and params:
